@@ -233,48 +233,48 @@ Proof.
 Qed.
 
 (* [s1] has the same open list, the same upvalue objects, the same capacity, the same frames, and a legal height *)
-Definition keep (s s1 : state) : Prop :=
+Definition keep0 (s s1 : state) : Prop :=
   st_open s1 = st_open s /\ cap s1 = cap s /\
   (forall a, oview (hget (st_heap s1) a) = oview (hget (st_heap s) a)) /\
   st_calls s1 = st_calls s /\
   (vcount (st_stack s) < cap s -> vcount (st_stack s1) < cap s1).
 
-Lemma keep_refl s : keep s s.
+Lemma keep0_refl s : keep0 s s.
 Proof. repeat split; auto. Qed.
-Lemma keep_trans a b c : keep a b -> keep b c -> keep a c.
+Lemma keep0_trans a b c : keep0 a b -> keep0 b c -> keep0 a c.
 Proof.
-  intros (A1 & A2 & A3 & A4 & A5) (B1 & B2 & B3 & B4 & B5). unfold keep.
+  intros (A1 & A2 & A3 & A4 & A5) (B1 & B2 & B3 & B4 & B5). unfold keep0.
   split; [congruence|]. split; [congruence|]. split; [intros x; rewrite B3; apply A3|].
   split; [congruence|auto].
 Qed.
 
-Lemma keep_open_ok s s1 : keep s s1 -> open_ok s -> open_ok s1.
+Lemma keep0_open_ok s s1 : keep0 s s1 -> open_ok s -> open_ok s1.
 Proof.
   intros (A1 & A2 & A3 & A4 & A5) (l & H). exists l. rewrite A1, A2. eapply hopen_ok_ext; eauto.
 Qed.
 
-Lemma keep_vm_ok s s1 : keep s s1 -> vm_ok s -> vm_ok s1.
+Lemma keep0_vm_ok s s1 : keep0 s s1 -> vm_ok s -> vm_ok s1.
 Proof.
-  intros K (A & B & C). split; [eapply keep_open_ok; eauto|].
+  intros K (A & B & C). split; [eapply keep0_open_ok; eauto|].
   destruct K as (A1 & A2 & A3 & A4 & A5). split; [auto|]. rewrite A2, A4. exact C.
 Qed.
 
-Lemma keep_open_list s s1 l : keep s s1 -> open_list s l -> open_list s1 l.
+Lemma keep0_open_list s s1 l : keep0 s s1 -> open_list s l -> open_list s1 l.
 Proof.
   intros (A1 & A2 & A3 & A4 & A5) H. unfold open_list in *. rewrite A1.
   eapply seg_ext; [|exact H]. intros; apply A3.
 Qed.
 
 (* ------------------------------------------------------------------ *)
-(* 4. the helpers of the instruction functions keep the open list      *)
+(* 4. the helpers of the instruction functions keep0 the open list      *)
 (* ------------------------------------------------------------------ *)
 
 Ltac kp :=
-  unfold keep, cap;
+  unfold keep0, cap;
   cbn [st_open st_heap st_calls st_stack set_stack set_calls set_globals set_heap set_open set_log set_rem tick
        vdata vcount log_push set_table fst snd].
 
-Lemma spush_keep s v s1 : spush s v = Some s1 -> keep s s1.
+Lemma spush_keep0 s v s1 : spush s v = Some s1 -> keep0 s s1.
 Proof.
   unfold spush, vs_push.
   destruct (Nat.ltb_spec (S (vcount (st_stack s))) (length (vdata (st_stack s)))) as [L|L];
@@ -282,16 +282,13 @@ Proof.
   injection H as <-. kp. rewrite upd_length. repeat split; auto.
 Qed.
 
-Lemma spush_heap s v s1 : spush s v = Some s1 -> st_heap s1 = st_heap s.
-Proof. unfold spush. destruct (vs_push _ _) as [k []]; intros H; inversion H; reflexivity. Qed.
-
-Lemma spop_keep s s1 v : spop s = (s1, v) -> keep s s1.
+Lemma spop_keep0 s s1 v : spop s = (s1, v) -> keep0 s s1.
 Proof.
   unfold spop, vs_pop. destruct (vcount (st_stack s) =? 0); intros H; cbv beta iota zeta in H;
     injection H as <- <-; kp; rewrite ?upd_length; repeat split; auto; lia.
 Qed.
 
-Lemma sset_keep s i v s1 : sset s i v = Some s1 -> keep s s1.
+Lemma sset_keep0 s i v s1 : sset s i v = Some s1 -> keep0 s s1.
 Proof.
   unfold sset, vs_step, vs_push.
   destruct (vcount (st_stack s) <? i); [discriminate|].
@@ -302,41 +299,41 @@ Proof.
   - intros H. injection H as <-. kp. rewrite upd_length. repeat split; auto.
 Qed.
 
-Lemma write_local_keep s off h v s1 : write_local s off h v = Some s1 -> keep s s1.
-Proof. apply sset_keep. Qed.
+Lemma write_local_keep0 s off h v s1 : write_local s off h v = Some s1 -> keep0 s s1.
+Proof. apply sset_keep0. Qed.
 
-Lemma sclear_until_keep s h s1 v : sclear_until s h = (s1, v) -> h < cap s -> keep s s1.
+Lemma sclear_until_keep0 s h s1 v : sclear_until s h = (s1, v) -> h < cap s -> keep0 s s1.
 Proof.
   unfold sclear_until, vs_step. intros H L. injection H as <- <-. kp. repeat split; auto.
 Qed.
 
-Lemma spop_w_offset_keep s off s1 v : spop_w_offset s off = (s1, v) -> keep s s1.
+Lemma spop_w_offset_keep0 s off s1 v : spop_w_offset s off = (s1, v) -> keep0 s s1.
 Proof.
   unfold spop_w_offset, vs_step, vs_pop. destruct (vcount (st_stack s) <=? off).
-  - intros H. injection H as <- <-. destruct s; apply keep_refl.
+  - intros H. injection H as <- <-. destruct s; apply keep0_refl.
   - destruct (vcount (st_stack s) =? 0); intros H; cbv beta iota zeta in H; injection H as <- <-.
-    + destruct s; apply keep_refl.
+    + destruct s; apply keep0_refl.
     + kp. rewrite upd_length. repeat split; auto. lia.
 Qed.
 
-Lemma spop_n_keep s n : keep s (spop_n s n).
+Lemma spop_n_keep0 s n : keep0 s (spop_n s n).
 Proof. unfold spop_n, vs_pop_n. kp. repeat split; auto. lia. Qed.
 
-Lemma sraw_set_keep s i v : keep s (sraw_set s i v).
+Lemma sraw_set_keep0 s i v : keep0 s (sraw_set s i v).
 Proof. unfold sraw_set. kp. rewrite upd_length. repeat split; auto. Qed.
 
-Lemma set_globals_keep s g : keep s (set_globals s g).
+Lemma set_globals_keep0 s g : keep0 s (set_globals s g).
 Proof. kp. repeat split; auto. Qed.
-Lemma set_log_keep s g : keep s (set_log s g).
+Lemma set_log_keep0 s g : keep0 s (set_log s g).
 Proof. kp. repeat split; auto. Qed.
-Lemma log_push_keep s e : keep s (log_push s e).
+Lemma log_push_keep0 s e : keep0 s (log_push s e).
 Proof. kp. repeat split; auto. Qed.
-Lemma set_rem_keep s r : keep s (set_rem s r).
+Lemma set_rem_keep0 s r : keep0 s (set_rem s r).
 Proof. kp. repeat split; auto. Qed.
-Lemma tick_keep s : keep s (tick s).
+Lemma tick_keep0 s : keep0 s (tick s).
 Proof. kp. repeat split; auto. Qed.
 
-Lemma salloc_keep s o s1 a : salloc s o = (s1, a) -> oview (Some o) = None -> keep s s1.
+Lemma salloc_keep0 s o s1 a : salloc s o = (s1, a) -> oview (Some o) = None -> keep0 s s1.
 Proof.
   unfold salloc, halloc. intros H Ho. injection H as <- <-. kp. repeat split; auto.
   apply oview_alloc_none. exact Ho.
@@ -346,12 +343,193 @@ Lemma salloc_heap s o s1 a : salloc s o = (s1, a) ->
   st_heap s1 = st_heap s ++ [o] /\ a = N.of_nat (length (st_heap s)).
 Proof. unfold salloc, halloc. intros H. injection H as <- <-. split; reflexivity. Qed.
 
-Lemma hset_keep s a o :
-  oview (hget (st_heap s) a) = None -> oview (Some o) = None -> keep s (set_heap s (hset (st_heap s) a o)).
+Lemma hset_keep0 s a o :
+  oview (hget (st_heap s) a) = None -> oview (Some o) = None -> keep0 s (set_heap s (hset (st_heap s) a o)).
 Proof. intros H1 H2. kp. repeat split; auto. apply oview_hset_none; assumption. Qed.
 
+Lemma set_table_keep0 s a t t' : hget (st_heap s) a = Some (OTable t) -> keep0 s (set_table s a t').
+Proof. intros H. unfold set_table. apply hset_keep0; [rewrite H|]; reflexivity. Qed.
+
+
+(* ---- what never changes in the heap: [obj_le o o'] = o' is a later state of the object o ---- *)
+Definition obj_le (o o' : obj) : Prop :=
+  match o, o' with
+  | OTable _, OTable _ => True
+  | OStr a, OStr b => a = b
+  | OFun h a, OFun h' a' => h = h' /\ a = a'
+  | ONative h, ONative h' => h = h'
+  | OClo h a ups, OClo h' a' ups' => h = h' /\ a = a' /\ exists more, ups' = ups ++ more
+  | OUp u, OUp u' => forall l, u_loc u' = Some l -> u_loc u = Some l
+  | _, _ => False
+  end.
+
+Lemma obj_le_refl o : obj_le o o.
+Proof. destruct o; cbn; auto. repeat split. exists []. symmetry. apply app_nil_r. Qed.
+
+Lemma obj_le_trans a b c : obj_le a b -> obj_le b c -> obj_le a c.
+Proof.
+  destruct a, b; cbn; try contradiction; destruct c; cbn; try contradiction; try congruence; auto.
+  - intros [-> ->] [-> ->]. split; reflexivity.
+  - intros (-> & -> & m1 & ->) (-> & -> & m2 & ->). repeat split. exists (m1 ++ m2). symmetry. apply app_assoc.
+Qed.
+
+(* every object stays, as an object of the same kind: strings, function values and natives are immutable, a closure
+   keeps its label and arity and only gains upvalues, an upvalue that is open later was open at the same slot before
+   (so a closed upvalue stays closed) *)
+Definition heap_mono (h h' : heap) : Prop :=
+  forall a o, hget h a = Some o -> exists o', hget h' a = Some o' /\ obj_le o o'.
+
+Lemma heap_mono_refl h : heap_mono h h.
+Proof. intros a o H. exists o. split; [exact H|apply obj_le_refl]. Qed.
+Lemma heap_mono_trans a b c : heap_mono a b -> heap_mono b c -> heap_mono a c.
+Proof.
+  intros H1 H2 x o Hx. destruct (H1 _ _ Hx) as (o1 & E1 & L1). destruct (H2 _ _ E1) as (o2 & E2 & L2).
+  exists o2. split; [exact E2|eapply obj_le_trans; eauto].
+Qed.
+Lemma heap_mono_app h o : heap_mono h (h ++ [o]).
+Proof.
+  intros a ob H. exists ob. split; [|apply obj_le_refl]. rewrite hget_app_old; [exact H|]. eapply hget_lt; eauto.
+Qed.
+Lemma heap_mono_hset h a old o : hget h a = Some old -> obj_le old o -> heap_mono h (hset h a o).
+Proof.
+  intros Ha Hle x ob Hx. destruct (N.eq_dec x a) as [->|Hn].
+  - rewrite Ha in Hx. injection Hx as <-. exists o. split; [|exact Hle]. apply hget_hset_eq. eapply hget_lt; eauto.
+  - exists ob. split; [|apply obj_le_refl]. rewrite hget_hset_ne by exact Hn. exact Hx.
+Qed.
+
+(* the heap part of [keep]: monotone, and the upvalue objects are exactly the same objects *)
+Definition hkeep (h h1 : heap) : Prop :=
+  heap_mono h h1 /\ (forall a u, hget h1 a = Some (OUp u) <-> hget h a = Some (OUp u)).
+
+Lemma hkeep_refl h : hkeep h h.
+Proof. split; [apply heap_mono_refl|]. intros; reflexivity. Qed.
+Lemma hkeep_trans a b c : hkeep a b -> hkeep b c -> hkeep a c.
+Proof.
+  intros (A1 & A2) (B1 & B2). split; [eapply heap_mono_trans; eauto|]. intros x u. rewrite B2. apply A2.
+Qed.
+Lemma hkeep_app h o : (forall u, o <> OUp u) -> hkeep h (h ++ [o]).
+Proof.
+  intros Ho. split; [apply heap_mono_app|]. intros a u. split; intros H.
+  - destruct (hget_app_inv _ _ _ _ H) as [E|[_ E]]; [exact E|]. exfalso. eapply Ho. symmetry. exact E.
+  - rewrite hget_app_old; [exact H|]. eapply hget_lt; eauto.
+Qed.
+Lemma hkeep_hset h a old o :
+  hget h a = Some old -> (forall u, old <> OUp u) -> (forall u, o <> OUp u) -> obj_le old o -> hkeep h (hset h a o).
+Proof.
+  intros Ha Hold Ho Hle. split; [eapply heap_mono_hset; eauto|]. intros x u.
+  destruct (N.eq_dec x a) as [->|Hn].
+  - rewrite hget_hset_eq by (eapply hget_lt; eauto). rewrite Ha. split; intros E; injection E as E; exfalso.
+    + eapply Ho; eauto.
+    + eapply Hold; eauto.
+  - rewrite hget_hset_ne by exact Hn. reflexivity.
+Qed.
+
+Definition keep (s s1 : state) : Prop := keep0 s s1 /\ hkeep (st_heap s) (st_heap s1).
+
+Lemma keep_refl s : keep s s.
+Proof. split; [apply keep0_refl|apply hkeep_refl]. Qed.
+Lemma keep_trans a b c : keep a b -> keep b c -> keep a c.
+Proof. intros (A & A') (B & B'). split; [eapply keep0_trans; eauto|eapply hkeep_trans; eauto]. Qed.
+Lemma keep_open_ok s s1 : keep s s1 -> open_ok s -> open_ok s1.
+Proof. intros (K & _). apply keep0_open_ok. exact K. Qed.
+Lemma keep_vm_ok s s1 : keep s s1 -> vm_ok s -> vm_ok s1.
+Proof. intros (K & _). apply keep0_vm_ok. exact K. Qed.
+Lemma keep_open_list s s1 l : keep s s1 -> open_list s l -> open_list s1 l.
+Proof. intros (K & _). apply keep0_open_list. exact K. Qed.
+
+Lemma spush_heap s v s1 : spush s v = Some s1 -> st_heap s1 = st_heap s.
+Proof. unfold spush. destruct (vs_push _ _) as [k []]; intros H; inversion H; reflexivity. Qed.
+Lemma spop_heap s s1 v : spop s = (s1, v) -> st_heap s1 = st_heap s.
+Proof. unfold spop. destruct (vs_pop _ _); intros H; inversion H; reflexivity. Qed.
+Lemma sset_heap s i v s1 : sset s i v = Some s1 -> st_heap s1 = st_heap s.
+Proof. unfold sset. destruct (vs_step _ _ _) as [k []]; intros H; inversion H; reflexivity. Qed.
+Lemma sclear_until_heap s h s1 v : sclear_until s h = (s1, v) -> st_heap s1 = st_heap s.
+Proof. unfold sclear_until. destruct (vs_step _ _ _) as [k []]; intros H; inversion H; reflexivity. Qed.
+Lemma spop_w_offset_heap s h s1 v : spop_w_offset s h = (s1, v) -> st_heap s1 = st_heap s.
+Proof. unfold spop_w_offset. destruct (vs_step _ _ _) as [k []]; intros H; inversion H; reflexivity. Qed.
+
+Lemma spush_keep s v s1 : spush s v = Some s1 -> keep s s1.
+Proof. intros H. split; [eapply spush_keep0; eauto|rewrite (spush_heap _ _ _ H); apply hkeep_refl]. Qed.
+Lemma spop_keep s s1 v : spop s = (s1, v) -> keep s s1.
+Proof. intros H. split; [eapply spop_keep0; eauto|rewrite (spop_heap _ _ _ H); apply hkeep_refl]. Qed.
+Lemma sset_keep s i v s1 : sset s i v = Some s1 -> keep s s1.
+Proof. intros H. split; [eapply sset_keep0; eauto|rewrite (sset_heap _ _ _ _ H); apply hkeep_refl]. Qed.
+Lemma write_local_keep s off h v s1 : write_local s off h v = Some s1 -> keep s s1.
+Proof. apply sset_keep. Qed.
+Lemma sclear_until_keep s h s1 v : sclear_until s h = (s1, v) -> h < cap s -> keep s s1.
+Proof.
+  intros H L. split; [eapply sclear_until_keep0; eauto|rewrite (sclear_until_heap _ _ _ _ H); apply hkeep_refl].
+Qed.
+Lemma spop_w_offset_keep s off s1 v : spop_w_offset s off = (s1, v) -> keep s s1.
+Proof.
+  intros H. split; [eapply spop_w_offset_keep0; eauto|rewrite (spop_w_offset_heap _ _ _ _ H); apply hkeep_refl].
+Qed.
+Lemma spop_n_keep s n : keep s (spop_n s n).
+Proof. split; [apply spop_n_keep0|apply hkeep_refl]. Qed.
+Lemma sraw_set_keep s i v : keep s (sraw_set s i v).
+Proof. split; [apply sraw_set_keep0|apply hkeep_refl]. Qed.
+Lemma set_globals_keep s g : keep s (set_globals s g).
+Proof. split; [apply set_globals_keep0|apply hkeep_refl]. Qed.
+Lemma set_log_keep s g : keep s (set_log s g).
+Proof. split; [apply set_log_keep0|apply hkeep_refl]. Qed.
+Lemma log_push_keep s e : keep s (log_push s e).
+Proof. split; [apply log_push_keep0|apply hkeep_refl]. Qed.
+Lemma set_rem_keep s r : keep s (set_rem s r).
+Proof. split; [apply set_rem_keep0|apply hkeep_refl]. Qed.
+Lemma tick_keep s : keep s (tick s).
+Proof. split; [apply tick_keep0|apply hkeep_refl]. Qed.
+
+Lemma not_up_view o : (forall u, o <> OUp u) -> oview (Some o) = None.
+Proof. destruct o; try reflexivity. intros H. exfalso. eapply H. reflexivity. Qed.
+
+Lemma salloc_keep s o s1 a : salloc s o = (s1, a) -> (forall u, o <> OUp u) -> keep s s1.
+Proof.
+  intros H Ho. split; [eapply salloc_keep0; eauto; apply not_up_view; exact Ho|].
+  destruct (salloc_heap _ _ _ _ H) as [-> _]. apply hkeep_app. exact Ho.
+Qed.
+
+(* an object that is not an upvalue is replaced by a later state of itself *)
+Lemma hset_keep s a old o :
+  hget (st_heap s) a = Some old -> (forall u, old <> OUp u) -> (forall u, o <> OUp u) -> obj_le old o ->
+  keep s (set_heap s (hset (st_heap s) a o)).
+Proof.
+  intros Ha Hold Ho Hle. split.
+  - apply hset_keep0; [rewrite Ha|]; apply not_up_view; assumption.
+  - cbn [st_heap set_heap]. eapply hkeep_hset; eauto.
+Qed.
+
 Lemma set_table_keep s a t t' : hget (st_heap s) a = Some (OTable t) -> keep s (set_table s a t').
-Proof. intros H. unfold set_table. apply hset_keep; [rewrite H|]; reflexivity. Qed.
+Proof.
+  intros H. unfold set_table. eapply hset_keep; [exact H| | |exact I]; intros u Hu; discriminate Hu.
+Qed.
+
+(* RegisterUpvalue appends an upvalue address to a closure *)
+Lemma clo_append_keep s ca ch car cups a :
+  hget (st_heap s) ca = Some (OClo ch car cups) ->
+  keep s (set_heap s (hset (st_heap s) ca (OClo ch car (cups ++ [a])))).
+Proof.
+  intros H. eapply hset_keep; [exact H| | |]; try (intros u Hu; discriminate Hu).
+  cbn. repeat split. eexists. reflexivity.
+Qed.
+
+(* SetUpvalue through a CLOSED upvalue: the object's own cell changes (this is not a [keep] step) *)
+Definition write_closed (s : state) (ua : N) (u : upval) (wv : value) : state :=
+  set_heap s (hset (st_heap s) ua (OUp (mkUp None wv (u_next u)))).
+
+Lemma write_closed_keep0 s ua u wv :
+  hget (st_heap s) ua = Some (OUp u) -> u_loc u = None -> keep0 s (write_closed s ua u wv).
+Proof. intros H Hl. apply hset_keep0; [rewrite H; cbn; rewrite Hl|]; reflexivity. Qed.
+
+Lemma write_closed_vm_ok s ua u wv :
+  hget (st_heap s) ua = Some (OUp u) -> u_loc u = None -> vm_ok s -> vm_ok (write_closed s ua u wv).
+Proof. intros H Hl. apply keep0_vm_ok. apply write_closed_keep0; assumption. Qed.
+
+Lemma write_closed_mono s ua u wv :
+  hget (st_heap s) ua = Some (OUp u) -> u_loc u = None -> heap_mono (st_heap s) (st_heap (write_closed s ua u wv)).
+Proof.
+  intros H Hl. unfold write_closed. cbn [st_heap set_heap]. eapply heap_mono_hset; [exact H|].
+  cbn. intros l E. discriminate E.
+Qed.
 
 Lemma get_table_hget h v a t : get_table h v = TblOk a t -> hget h a = Some (OTable t).
 Proof.
@@ -394,7 +572,7 @@ Ltac note_keep :=
          | H : sset _ _ _ = Some _ |- _ => apply sset_keep in H
          | H : spop_w_offset _ _ = (_, _) |- _ => apply spop_w_offset_keep in H
          | H : write_local _ _ _ _ = Some _ |- _ => apply write_local_keep in H
-         | H : salloc _ _ = (_, _) |- _ => apply salloc_keep in H; [|reflexivity]
+         | H : salloc _ _ = (_, _) |- _ => apply salloc_keep in H; [|intros ? ?; discriminate]
          end.
 
 Ltac peel :=
@@ -722,6 +900,31 @@ Proof.
       unfold hget. rewrite (proj2 (nth_error_None h _)) by lia. apply nth_error_None. rewrite app_length. cbn.
       assert (N.to_nat x <> length h) by (intros E; apply Hn; unfold ua; rewrite <- E; symmetry; apply N2Nat.id). lia.
     + intros ->. fold h in Hx. rewrite Hv in Hx. discriminate.
+Qed.
+
+(* the objects survive register_upvalue and _close_upvalues *)
+Lemma link_new_mono s1 o s2 ua prev :
+  salloc s1 o = (s2, ua) -> heap_mono (st_heap s1) (st_heap (link_new s2 prev ua)).
+Proof.
+  intros Ea. destruct (salloc_heap _ _ _ _ Ea) as [Eh _].
+  assert (M : heap_mono (st_heap s1) (st_heap s2)) by (rewrite Eh; apply heap_mono_app).
+  unfold link_new. destruct prev as [pa|]; [|exact M].
+  destruct (hget (st_heap s2) pa) as [[t|b|h ar|h|h ar ups|pu]|] eqn:Ep; try exact M.
+  cbn [st_heap set_heap]. eapply heap_mono_trans; [exact M|].
+  eapply heap_mono_hset; [exact Ep|]. cbn. intros l E. exact E.
+Qed.
+
+Lemma close_from_mono top s l capn s' :
+  hopen_ok (st_heap s) (st_open s) capn l -> close_upvalues_from top s = ClOk s' ->
+  heap_mono (st_heap s) (st_heap s').
+Proof.
+  intros Hh E. destruct (close_from_spec top s l capn Hh) as (s'' & E' & _ & _ & Hcl & Hun).
+  rewrite E in E'. injection E' as <-. destruct Hh as (Hseg & _).
+  intros a o Ha. destruct (in_closed_dec top l a) as [(loc & Hin & Ht)|Hall].
+  - destruct (Hcl _ _ Hin Ht) as (nx & E1). eexists. split; [exact E1|].
+    destruct (seg_view _ _ _ _ _ _ Hseg Hin) as (nx' & Ev). destruct (oview_some _ _ _ Ev) as (v & Hg).
+    rewrite Hg in Ha. injection Ha as <-. cbn. intros l0 El0. discriminate El0.
+  - exists o. split; [rewrite (Hun _ Hall); exact Ha|apply obj_le_refl].
 Qed.
 
 (* ------------------------------------------------------------------ *)
